@@ -37,7 +37,8 @@ abbrev SEQ_MOD : Nat := 4294967296
 /-- Key sets of the dispatch tables, as read from the source on every run (`PV.Generated.C12`). -/
 structure Tables where
   names : List Nat            -- keys of common.MSG_NAMES
-  namesTotal : Bool           -- the fallback branch looks the debug name up with a default (`.get`), not `[...]`
+  namesTotal : Bool           -- every debug-name lookup on the receive path (run() fallback, read_message,
+                              -- send_message) has a default / an `in` guard; none is a bare `MSG_NAMES[...]`
   transport : List Nat        -- Transport(...)._handler_table
   transportSRT : List Nat     -- ServiceRequestingTransport(...)._handler_table
   channel : List Nat          -- Transport._channel_handler_table
